@@ -650,4 +650,283 @@ Proof.
       exists s'. split; [exact Hs'|]. destruct H; auto.
 Qed.
 
+(* ---------------------------------------------------------------------------------------- *)
+(* an unconfirmed transaction is processed: what the model does *)
+Lemma add_tx_facts s now t body tr :
+  let r := add_transaction s now t body tr in
+  (snd (snd r) = true -> snd (fst (snd r)) = tr) /\
+  forall t', is_trusted (fst r) t' = if decide (t' = t) then is_trusted s t || tr else is_trusted s t'.
+Proof.
+  cbv zeta. unfold add_transaction, is_trusted.
+  destruct (txs s !! t) as [m0|] eqn:Em.
+  - assert (Hm1 : mtrusted (if tr && negb (mtrusted m0) then MTx (mtime m0) (outpoints m0) true else m0)
+                  = mtrusted m0 || tr).
+    { destruct (mtrusted m0) eqn:E; destruct tr; cbn; rewrite ?E; reflexivity. }
+    destruct (negb (zlen (outpoints m0) =? 0)) eqn:Eo.
+    + cbn [fst snd txs]. split; [discriminate|]. intros t'.
+      destruct (decide (t' = t)) as [->|Hne];
+        [rewrite lookup_insert; exact Hm1 | rewrite lookup_insert_ne by congruence; reflexivity].
+    + destruct (add_inputs (inputs s) [] t body) as [ins c]. cbn [fst snd txs].
+      split; [reflexivity|]. intros t'.
+      destruct (decide (t' = t)) as [->|Hne];
+        [rewrite lookup_insert; exact Hm1 | rewrite lookup_insert_ne by congruence; reflexivity].
+  - destruct (add_inputs (inputs s) [] t body) as [ins c]. cbn [fst snd txs].
+    split; [reflexivity|]. intros t'.
+    destruct (decide (t' = t)) as [->|Hne];
+      [rewrite lookup_insert; reflexivity | rewrite lookup_insert_ne by congruence; reflexivity].
+Qed.
+
+Definition noF : Z -> Prop := fun _ => False.
+
+(* the outcome for the arriving transaction itself *)
+Definition tx_caseA (n n' : node) (evs : list event) (t : Z) (rel : bool) : Prop :=
+  unconf n !! t = None /\ unconf n' !! t = None /\ t ∉ tkeys evs /\
+  (rel = false \/ exists s b, states n !! t = Some s /\ s_proof s = Some b).
+
+Definition tx_caseB (n n' : node) (evs : list event) (t : Z) (rel tr sf cn : bool) : Prop :=
+  exists u u' so,
+    unconf n !! t = Some u /\ unconf n' !! t = Some u' /\ states n !! t = Some so /\
+    s_proof so = None /\ rel = true /\
+    u_time u' = u_time u /\ u_trusted u' = u_trusted u || tr /\ u_safe u' = u_safe u || sf /\
+    u_unsafe u' = u_unsafe u || cn /\
+    (cn = true -> EUpdate t (mk_unsafe_s so) ∈ evs) /\
+    (forall s, tev_in evs t s ->
+       (cn = true /\ s = mk_unsafe_s so) \/
+       (cn = false /\ sf = true /\ u_safe u = false /\
+        (s_safe so || s_unsafe so || s_cancel so) = false /\ s = mk_safe_s so)) /\
+    (cn = false -> sf = true -> u_safe u = false ->
+     (s_safe so || s_unsafe so || s_cancel so) = false -> EUpdate t (mk_safe_s so) ∈ evs) /\
+    (forall s, ETx t s ∉ evs).
+
+Definition tx_caseC (n n' : node) (evs : list event) (t : Z) (body : list Z) (rel tr sf cn : bool) : Prop :=
+  unconf n !! t = None /\ states n !! t = None /\ rel = true /\
+  unconf n' !! t = Some (UTx (now n) false sf tr) /\
+  exists s1, ETx t s1 ∈ evs /\ s_proof s1 = None /\ outs_ok body (s_outs s1) = true /\
+             s_safe s1 = sf && negb cn /\ s_unsafe s1 = cn.
+
+Lemma pu_spec n m t body rel tr sf :
+  Inv n m -> (t, body, rel) ∈ T -> held (m_pool m) t = false ->
+  let p := m_pool m in
+  let cfs := conflicts_of p t body in
+  let cn := negb (zlen cfs =? 0) in
+  exists n' evs,
+    process_unconfirmed n t body rel tr sf = (n', evs) /\
+    R (mp n') (if zlen body =? 0 then p else p ++ [(t, body)]) /\
+    (forall t', is_trusted (mp n') t' = if decide (t' = t) then is_trusted (mp n) t || tr
+                                        else is_trusted (mp n) t') /\
+    same_misc n n' /\
+    Ext noF (states n) (states n') evs /\
+    (forall x, x <> t -> unconf n' !! x = if bool_decide (x ∈ cfs) then mk_unsafe_u <$> unconf n !! x
+                                          else unconf n !! x) /\
+    (tx_caseA n n' evs t rel \/ tx_caseB n n' evs t rel tr sf cn \/ tx_caseC n n' evs t body rel tr sf cn) /\
+    (forall x s, tev_in evs x s -> x <> t ->
+       x ∈ cfs /\ is_Some (unconf n !! x) /\ EUpdate x s ∈ evs /\ s_unsafe s = true /\ s_safe s = false) /\
+    (forall c, c ∈ cfs -> is_Some (unconf n !! c) -> exists s, EUpdate c s ∈ evs /\ s_unsafe s = true) /\
+    (forall x s, ETx x s ∈ evs -> x = t).
+Proof.
+  intros [HS HU] HT Hheld p cfs cn.
+  pose proof (R_add (mp n) p (now n) t body tr (vu_R _ _ HU)) as Hadd. cbv zeta in Hadd.
+  pose proof (add_tx_facts (mp n) (now n) t body tr) as Hfacts. cbv zeta in Hfacts.
+  unfold process_unconfirmed.
+  destruct (add_transaction (mp n) (now n) t body tr) as [m1 [[cfs0 tr1] added]].
+  cbn [fst snd] in Hadd, Hfacts. destruct Hadd as [HR1 Hobs]. destruct Hfacts as [Htr1 Htrust].
+  unfold ref_step in HR1, Hobs. fold p in HR1, Hobs. rewrite Hheld in HR1, Hobs.
+  cbn [fst snd] in HR1, Hobs. inversion Hobs as [[Hadded Hcfs]].
+  assert (added = true) by (destruct added; [reflexivity|discriminate]). subst added.
+  fold cfs in Hcfs. subst cfs0. specialize (Htr1 eq_refl). subst tr1. clear Hobs Hadded.
+  cbn [negb]. rewrite orb_diag.
+  assert (Hndc : NoDup cfs) by (apply add_returns_conflicts, (R_nodup _ _ (vu_R _ _ HU))).
+  assert (Htc : t ∉ cfs).
+  { intros Hin. apply conflicts_of_elem in Hin. destruct Hin as [Hne _]. congruence. }
+  pose proof (mark_conflicts_spec noF (states n) cfs Hndc (set_mp n m1) []) as Hmark.
+  destruct (mark_conflicts (set_mp n m1) cfs []) as [n2 evs1].
+  destruct (Hmark n2 evs1 eq_refl) as (Hmp2 & Hmisc2 & Hunc2 & HE2 & evs1' & Hacc & Hev1 & Hev2).
+  { intros c _. apply not_elem_of_nil. }
+  { apply Ext_nil. }
+  simpl in Hacc. subst evs1'. clear Hmark. cbn [mp set_mp unconf states] in *.
+  assert (Hu2t : unconf n2 !! t = unconf n !! t).
+  { rewrite Hunc2. rewrite bool_decide_eq_false_2 by exact Htc. reflexivity. }
+  assert (Htk1 : t ∉ tkeys evs1).
+  { intros Hk. apply tkeys_elem in Hk. destruct Hk as (s & Hk). destruct (Hev1 t s Hk) as (H1 & _). contradiction. }
+  assert (Hs2t : states n2 !! t = states n !! t) by (apply (x_out _ _ _ _ HE2 t Htk1)).
+  assert (Hrelt : is_Some (unconf n !! t) -> rel = true).
+  { intros Hu. destruct (vu_US _ _ HU t Hu) as (s & Hs & _).
+    apply (relT_rel t body rel); [|exact HT]. apply (vs_REL _ _ HS). eauto. }
+  assert (HnoETx1 : forall x s, ETx x s ∈ evs1 -> False).
+  { intros x s H. destruct (Hev1 x s (or_introl H)) as (_ & Hu & Hup & _).
+    destruct (x_new _ _ _ _ HE2 x s H) as [Hnone _].
+    destruct (vu_US _ _ HU x Hu) as (so & Hso & _). congruence. }
+  (* common parts of the conclusion, for a final node n' that agrees with n2 except at key t *)
+  assert (Fin : forall n' evs,
+    mp n' = m1 -> same_misc n2 n' -> Ext noF (states n) (states n') evs ->
+    (forall x, x <> t -> unconf n' !! x = unconf n2 !! x) ->
+    (tx_caseA n n' evs t rel \/ tx_caseB n n' evs t rel tr sf cn \/ tx_caseC n n' evs t body rel tr sf cn) ->
+    (exists evt, evs = evs1 ++ evt /\ (forall x s, tev_in evt x s -> x = t)) ->
+    R (mp n') (if zlen body =? 0 then p else p ++ [(t, body)]) /\
+    (forall t', is_trusted (mp n') t' = if decide (t' = t) then is_trusted (mp n) t || tr
+                                        else is_trusted (mp n) t') /\
+    same_misc n n' /\
+    Ext noF (states n) (states n') evs /\
+    (forall x, x <> t -> unconf n' !! x = if bool_decide (x ∈ cfs) then mk_unsafe_u <$> unconf n !! x
+                                          else unconf n !! x) /\
+    (tx_caseA n n' evs t rel \/ tx_caseB n n' evs t rel tr sf cn \/ tx_caseC n n' evs t body rel tr sf cn) /\
+    (forall x s, tev_in evs x s -> x <> t ->
+       x ∈ cfs /\ is_Some (unconf n !! x) /\ EUpdate x s ∈ evs /\ s_unsafe s = true /\ s_safe s = false) /\
+    (forall c, c ∈ cfs -> is_Some (unconf n !! c) -> exists s, EUpdate c s ∈ evs /\ s_unsafe s = true) /\
+    (forall x s, ETx x s ∈ evs -> x = t)).
+  { intros n' evs Hmp' Hmisc' HE' Hunc' Hcase (evt & Hevs & Hevt).
+    split; [rewrite Hmp'; exact HR1|]. split; [rewrite Hmp'; exact Htrust|].
+    split; [eapply same_misc_trans; [|exact Hmisc']; exact Hmisc2|]. split; [exact HE'|].
+    split; [intros x Hne; rewrite (Hunc' x Hne); apply Hunc2|]. split; [exact Hcase|].
+    split; [|split].
+    - intros x s H Hne. subst evs. apply tev_in_app in H. destruct H as [H|H].
+      + destruct (Hev1 x s H) as (H1 & H2 & H3 & H4 & H5). split; [exact H1|]. split; [exact H2|].
+        split; [apply elem_of_app; left; exact H3|]. auto.
+      + destruct Hne. eapply Hevt; eauto.
+    - intros c Hc Hu. destruct (vu_US _ _ HU c Hu) as (so & Hso & _).
+      destruct (Hev2 c Hc Hu) as (s & H1 & H2); [eauto|].
+      exists s. split; [subst evs; apply elem_of_app; left; exact H1|exact H2].
+    - intros x s H. subst evs. apply elem_of_app in H. destruct H as [H|H].
+      + destruct (HnoETx1 x s H).
+      + eapply Hevt. left. exact H. }
+  destruct rel.
+  2:{ (* not relevant: never tracked *)
+    cbn [negb].
+    assert (Hnt : unconf n !! t = None).
+    { destruct (unconf n !! t) eqn:E; [|reflexivity]. discriminate (Hrelt (ex_intro _ _ eq_refl)). }
+    eexists. eexists. split; [reflexivity|].
+    apply Fin; try reflexivity.
+    - repeat split.
+    - exact HE2.
+    - intros x Hne. cbn. apply lookup_delete_ne. congruence.
+    - left. split; [exact Hnt|]. split; [cbn; apply lookup_delete|]. split; [exact Htk1|]. left. reflexivity.
+    - exists []. rewrite app_nil_r. split; [reflexivity|]. intros x s H. destruct (tev_in_nil _ _ H). }
+  cbn [negb].
+  destruct (unconf n2 !! t) as [u|] eqn:Eu.
+  - (* already tracked *)
+    rewrite Hu2t in Eu.
+    destruct (vu_US _ _ HU t) as (so & Hso & Hpo); [eauto|].
+    fold cn.
+    set (u1 := UTx (u_time u) (u_unsafe u) (u_safe u || sf) (u_trusted u || tr)).
+    destruct cn eqn:Ecn.
+    + (* conflict known now: marked unsafe *)
+      cbn [states set_unconf]. rewrite Hs2t, Hso.
+      eexists. eexists. split; [reflexivity|].
+      apply Fin; try reflexivity.
+      * repeat split.
+      * cbn [states set_states set_unconf].
+        apply (Ext_upd noF _ _ evs1 t so); [exact HE2|exact Htk1|rewrite Hs2t; exact Hso|apply trans_mk_unsafe].
+      * intros x Hne. cbn. rewrite !lookup_insert_ne by congruence. reflexivity.
+      * right. left. exists u, (UTx (u_time u1) true (u_safe u1) (u_trusted u1)), so.
+        split; [exact Eu|]. split; [cbn; apply lookup_insert|]. split; [exact Hso|]. split; [exact Hpo|].
+        split; [reflexivity|]. cbn. split; [reflexivity|]. split; [reflexivity|]. split; [reflexivity|].
+        split; [rewrite orb_true_r; reflexivity|].
+        split; [intros _; apply elem_of_app; right; left|].
+        split.
+        { intros s H. left. split; [reflexivity|]. apply tev_in_app in H. destruct H as [H|H].
+          - destruct Htk1. apply tkeys_elem. eauto.
+          - apply tev_in_single in H. destruct H as [H|H]; inversion H. reflexivity. }
+        split; [discriminate|].
+        intros s H. apply elem_of_app in H. destruct H as [H|H]; [eapply HnoETx1; eauto|].
+        apply elem_of_list_singleton in H. discriminate.
+      * eexists. split; [reflexivity|]. intros x s H. apply tev_in_single in H.
+        destruct H as [H|H]; inversion H; reflexivity.
+    + destruct (sf && negb (u_safe u)) eqn:Esf.
+      * apply andb_true_iff in Esf. destruct Esf as [-> Eus]. apply negb_true_iff in Eus.
+        cbn [states set_unconf]. rewrite Hs2t, Hso.
+        destruct (s_safe so || s_unsafe so || s_cancel so) eqn:Eflags.
+        -- eexists. eexists. split; [reflexivity|].
+           apply Fin; try reflexivity.
+           ++ repeat split.
+           ++ exact HE2.
+           ++ intros x Hne. cbn. rewrite lookup_insert_ne by congruence. reflexivity.
+           ++ right. left. exists u, u1, so.
+              split; [exact Eu|]. split; [cbn; apply lookup_insert|]. split; [exact Hso|]. split; [exact Hpo|].
+              split; [reflexivity|]. cbn. split; [reflexivity|]. split; [reflexivity|]. split; [reflexivity|].
+              split; [rewrite orb_false_r; reflexivity|]. split; [discriminate|].
+              split; [intros s H; destruct Htk1; apply tkeys_elem; eauto|].
+              split; [intros _ _ _ H; congruence|].
+              intros s H. eapply HnoETx1; eauto.
+           ++ exists []. rewrite app_nil_r. split; [reflexivity|]. intros x s H. destruct (tev_in_nil _ _ H).
+        -- eexists. eexists. split; [reflexivity|].
+           assert (Hns : (s_unsafe so || s_cancel so) = false).
+           { apply orb_false_iff in Eflags. destruct Eflags as [Ef1 Ef2]. apply orb_false_iff in Ef1.
+             destruct Ef1 as [_ Ef1]. rewrite Ef1, Ef2. reflexivity. }
+           apply Fin; try reflexivity.
+           ++ repeat split.
+           ++ cbn [states set_states set_unconf].
+              apply (Ext_upd noF _ _ evs1 t so); [exact HE2|exact Htk1|rewrite Hs2t; exact Hso|].
+              apply trans_mk_safe, Hns.
+           ++ intros x Hne. cbn. rewrite lookup_insert_ne by congruence. reflexivity.
+           ++ right. left. exists u, u1, so.
+              split; [exact Eu|]. split; [cbn; apply lookup_insert|]. split; [exact Hso|]. split; [exact Hpo|].
+              split; [reflexivity|]. cbn. split; [reflexivity|]. split; [reflexivity|]. split; [reflexivity|].
+              split; [rewrite orb_false_r; reflexivity|]. split; [discriminate|].
+              split.
+              { intros s H. right. apply tev_in_app in H. destruct H as [H|H].
+                - destruct Htk1. apply tkeys_elem. eauto.
+                - apply tev_in_single in H. destruct H as [H|H]; inversion H. auto 10. }
+              split; [intros _ _ _ _; apply elem_of_app; right; left|].
+              intros s H. apply elem_of_app in H. destruct H as [H|H]; [eapply HnoETx1; eauto|].
+              apply elem_of_list_singleton in H. discriminate.
+           ++ eexists. split; [reflexivity|]. intros x s H. apply tev_in_single in H.
+              destruct H as [H|H]; inversion H; reflexivity.
+      * eexists. eexists. split; [reflexivity|].
+        apply Fin; try reflexivity.
+        -- repeat split.
+        -- exact HE2.
+        -- intros x Hne. cbn. rewrite lookup_insert_ne by congruence. reflexivity.
+        -- right. left. exists u, u1, so.
+           split; [exact Eu|]. split; [cbn; apply lookup_insert|]. split; [exact Hso|]. split; [exact Hpo|].
+           split; [reflexivity|]. cbn. split; [reflexivity|]. split; [reflexivity|]. split; [reflexivity|].
+           split; [rewrite orb_false_r; reflexivity|]. split; [discriminate|].
+           split; [intros s H; destruct Htk1; apply tkeys_elem; eauto|].
+           split.
+           { intros _ -> Hus. rewrite Hus in Esf. discriminate. }
+           intros s H. eapply HnoETx1; eauto.
+        -- exists []. rewrite app_nil_r. split; [reflexivity|]. intros x s H. destruct (tev_in_nil _ _ H).
+  - (* not tracked *)
+    rewrite Hu2t in Eu.
+    cbn [states set_unconf now]. rewrite Hs2t.
+    destruct (states n !! t) as [s|] eqn:Est.
+    + (* delivered earlier and not tracked: confirmed *)
+      assert (Hconf : exists b, s_proof s = Some b /\ in_chain (set_unconf n2 (<[t:=UTx (now n2) false sf tr]> (unconf n2))) b = true).
+      { destruct (s_proof s) as [b|] eqn:Ep.
+        - exists b. split; [reflexivity|]. unfold in_chain. cbn [chain set_unconf].
+          destruct Hmisc2 as (Hch & _). cbn [chain set_mp] in Hch. rewrite Hch.
+          apply mem_elem. eapply vs_PRF; eauto.
+        - destruct (vu_SU _ _ HU t s Est Ep) as (u & Hu). congruence. }
+      destruct Hconf as (b & Hpb & Hic). rewrite Hpb, Hic.
+      eexists. eexists. split; [reflexivity|].
+      apply Fin; try reflexivity.
+      * repeat split.
+      * exact HE2.
+      * intros x Hne. cbn. rewrite lookup_delete_ne, lookup_insert_ne by congruence. reflexivity.
+      * left. split; [exact Eu|]. split; [cbn; apply lookup_delete|]. split; [exact Htk1|]. right. eauto.
+      * exists []. rewrite app_nil_r. split; [reflexivity|]. intros x s' H. destruct (tev_in_nil _ _ H).
+    + (* first seen: delivered now *)
+      cbn [s_proof]. fold cn.
+      set (nn := set_unconf n2 (<[t:=UTx (now n2) false sf tr]> (unconf n2))).
+      set (s1 := if cn then TState false true false 1 None (spent_outputs nn body)
+                 else TState (sf || sf) false false 1 None (spent_outputs nn body)).
+      assert (Hnow2 : now n2 = now n) by (destruct Hmisc2 as (_ & _ & H & _); exact H).
+      exists (set_states nn (<[t:=s1]> (states nn))), (evs1 ++ [ETx t s1]).
+      split.
+      { subst s1 nn. cbn [s_cancel s_unsafe s_outs s_proof]. destruct cn; reflexivity. }
+      apply Fin; try reflexivity.
+      * repeat split.
+      * cbn [states set_states set_unconf]. subst nn. cbn [states set_unconf].
+        apply Ext_new; [exact HE2|exact Htk1|rewrite Hs2t; exact Est| |].
+        -- subst s1. unfold flags. destruct cn; cbn; split; try reflexivity; try discriminate.
+           rewrite andb_false_r. reflexivity.
+        -- left. subst s1. destruct cn; reflexivity.
+      * intros x Hne. subst nn. cbn. rewrite lookup_insert_ne by congruence. reflexivity.
+      * right. right. split; [exact Eu|]. split; [exact Est|]. split; [reflexivity|].
+        split; [subst nn; cbn; rewrite lookup_insert, Hnow2; reflexivity|].
+        exists s1. split; [apply elem_of_app; right; left|].
+        subst s1. destruct cn; cbn; rewrite ?outs_ok_spent, ?orb_diag, ?andb_true_r, ?andb_false_r; auto.
+      * eexists. split; [reflexivity|]. intros x s' H. apply tev_in_single in H.
+        destruct H as [H|H]; inversion H; reflexivity.
+Qed.
+
 End Flow.
